@@ -240,21 +240,24 @@ def exponentText (fmt : Format) (feats : Features) (cursor : Nat) (exp : Int) (e
 def Gen.buf (g : Gen) : List Nat :=
   g.ints ++ g.fracs ++ g.garbage ++ List.replicate (halfSize - (g.fracs.length + g.garbage.length)) 0
 
+/-- the mantissa part of `write_float_scientific` (text, 1 + highest index touched): first digit `d0`, other digits `rest` -/
+def sciMant (fmt : Format) (o : WOpts) (d0 : Nat) (rest : List Nat) : List Nat × Nat :=
+  let zeros := rtrimCount 48 rest
+  let body := rest.take (rest.length - zeros)
+  let count := 1 + body.length
+  let exact := minExactDigits count o
+  let hi0 := max 2 (rest.length + 2)
+  if ¬ fmt.noExponentWithoutFraction ∧ count = 1 ∧ o.trim then ([d0], hi0)
+  else if exact < 2 then ([d0, o.dp, 48], max hi0 3)
+  else if exact > count then ([d0, o.dp] ++ body ++ List.replicate (exact - count) 48, max hi0 (exact + 1))
+  else ([d0, o.dp] ++ body, hi0)
+
 /-- `write_float_scientific` after rounding: `digits = &buffer[start..start + digit_count]` -/
 def sciFinish (fmt : Format) (feats : Features) (o : WOpts) (digits : List Nat) (sciExp : Int) : Res Text :=
   match digits with
   | [] => .panic                                             -- `digits[0]`
   | d0 :: rest =>
-    let zeros := rtrimCount 48 rest
-    let body := rest.take (rest.length - zeros)
-    let count := 1 + body.length
-    let exact := minExactDigits count o
-    let hi0 := max 2 (rest.length + 2)
-    let mant : List Nat × Nat :=
-      if ¬ fmt.noExponentWithoutFraction ∧ count = 1 ∧ o.trim then ([d0], hi0)
-      else if exact < 2 then ([d0, o.dp, 48], max hi0 3)
-      else if exact > count then ([d0, o.dp] ++ body ++ List.replicate (exact - count) 48, max hi0 (exact + 1))
-      else ([d0, o.dp] ++ body, hi0)
+    let mant := sciMant fmt o d0 rest
     let e := exponentText fmt feats mant.1.length sciExp o.exp
     .ok ⟨mant.1 ++ e.text, max mant.2 e.hi⟩
 
